@@ -17,6 +17,13 @@ Theorem C26_served_implies_declared : forall (e : endpoint) (m : meth) (x : ctx)
 Proof. exact served_implies_declared. Qed.
 Print Assumptions C26_served_implies_declared.
 
+(* ... and conversely: the decision is EXACTLY the declared level (for every endpoint record, verb and context) *)
+Theorem C26_decision_is_declared_level : forall (e : endpoint) (m : meth) (x : ctx),
+  fst (serve e m x) = Handler <->
+  (registered e m = true /\ allowed (declared e m) x /\ (x_degraded x = true -> m = GET)).
+Proof. exact decision_is_declared_level. Qed.
+Print Assumptions C26_decision_is_declared_level.
+
 (* for every endpoint of the ACTUAL table (daemon/api.go as it is now), every verb and every context: the handler runs
    only if the request carries peer credentials satisfying the level the pinned policy demands for that path and verb
    (root-only: uid 0 on snapd.socket; authenticated: snapd.socket and root / logged-in user / polkit yes for the
@@ -90,6 +97,49 @@ Theorem C26_root_only : forall e : endpoint, In e api -> forall (m : meth) (x : 
 Proof. exact root_only. Qed.
 Print Assumptions C26_root_only.
 
+(* on the actual table, a PUT/POST arriving on the snap socket reaches a handler only at /v2/snapctl, or at
+   /v2/accessories/themes when the calling instance has snap-themes-control actively connected AND is root / logged in /
+   granted io.snapcraft.snapd.manage (computed over the regenerated table: a new write endpoint open to the snap socket
+   breaks this obligation) *)
+Theorem C26_snap_socket_writes : forall e : endpoint, In e api -> forall (m : meth) (x : ctx) (u : ucred),
+  m <> GET -> fst (serve e m x) = Handler -> peer x u -> u_socket u = snap_socket ->
+  ep_path e = bs "/v2/snapctl" \/
+  (ep_path e = bs "/v2/accessories/themes" /\ connected x [if_themes] /\ authenticated x u pk_manage).
+Proof. exact snap_socket_writes. Qed.
+Print Assumptions C26_snap_socket_writes.
+
+(* what the handler finds attached: when the address is what the listener printed for a real peer, every interface in
+   r.RemoteAddr at handler time is one the calling instance has actively connected (plug side, exact instance) *)
+Theorem C26_handler_ifaces_are_connected : forall (e : endpoint) (m : meth) (x : ctx) (r' : bytes) (u : ucred),
+  names_plain (declared e m) = true ->
+  x_remote x = print_ucred u -> 0 < u_pid u < 2147483648 -> u_uid u < 4294967295 -> forallb not_semi (u_socket u) = true ->
+  serve e m x = (Handler, r') ->
+  exists l', ucrednet_get_with_interfaces r' = Some (u, l') /\ forall i, In i l' -> connected x [i].
+Proof. exact served_ifaces_are_connected. Qed.
+Print Assumptions C26_handler_ifaces_are_connected.
+
+(* END TO END for the notices handlers' type filter (noticeTypesViewableBySnap, with the generated noticeReadInterfaces):
+   over the actual table, a snap on snapd-snap.socket is told `viewable` for a set of notice types only if for EVERY
+   requested type the calling instance has an active plug-side connection of an interface the hand-written table lists
+   for that type (refresh-observe for change-update / refresh-inhibit / snap-run-inhibit, interfaces-requests-control
+   for the two prompting types, nothing for warning) *)
+Theorem C26_notices_types_need_connection : forall e : endpoint, In e api ->
+  forall (m : meth) (x : ctx) (r' : bytes) (u : ucred) (types : list bytes) (t : bytes),
+  x_remote x = print_ucred u -> 0 < u_pid u < 2147483648 -> u_uid u < 4294967295 -> u_socket u = snap_socket ->
+  serve e m x = (Handler, r') ->
+  notice_types_viewable types r' = true -> In t types ->
+  exists i, In i (lookup_ifaces spec_notice_ifaces t) /\ connected x [i].
+Proof. exact notices_types_need_connection. Qed.
+Print Assumptions C26_notices_types_need_connection.
+
+(* the link to C25: on the actual table, when /v2/snapctl's handler runs the request came from a real peer on
+   snapd-snap.socket, and the uid that runSnapctl hands to ctlcmd.Run (the uid C25's gate judges) is that peer's uid *)
+Theorem C26_snapctl_uid_is_peer : forall e : endpoint, In e api -> ep_path e = bs "/v2/snapctl" ->
+  forall (x : ctx) (r' : bytes), serve e POST x = (Handler, r') ->
+  exists u : ucred, peer x u /\ u_socket u = snap_socket /\ ucrednet_get r' = Some u /\ snapctl_uid r' = u_uid u.
+Proof. exact snapctl_uid_is_peer. Qed.
+Print Assumptions C26_snapctl_uid_is_peer.
+
 (* the model's parser accepts exactly the credential strings of real peers (so `peer` and ucrednetGet agree) *)
 Theorem C26_parser_is_peer : forall (x : ctx) (u : ucred), ucrednet_get (x_remote x) = Some u <-> peer x u.
 Proof. intros x u. split; [apply get_some_peer | apply peer_get]. Qed.
@@ -112,15 +162,53 @@ Theorem C26_attach_preserves_creds : forall (s : bytes) (u : ucred) (l : list by
 Proof. exact attach_preserves_creds. Qed.
 Print Assumptions C26_attach_preserves_creds.
 
-(* PARTIAL with respect to the list of interfaces: the full statement would also say l' = l ++ [i] when l is not
-   empty, i is not in l and no name contains & -- not proved (needs split_amp/join_amp inversion); the driver compares
-   the implementation's attach output with the model's on generated strings instead. *)
-Theorem C26_attach_roundtrip_partial : forall (u : ucred) (i : bytes),
-  0 < u_pid u < 2147483648 -> u_uid u < 4294967295 -> forallb not_semi (u_socket u) = true ->
-  forallb not_semi i = true ->
-  ucrednet_get_with_interfaces (ucrednet_attach_interface (print_ucred u) i) = Some (u, split_amp i).
-Proof. exact attach_roundtrip. Qed.
-Print Assumptions C26_attach_roundtrip_partial.
+(* FULL attach round trip: for EVERY accepted address s (fresh, or already carrying any attachment string), every
+   credentials u and list l read from it, and EVERY interface string i without ; (including strings with & inside):
+   after ucrednetAttachInterface(s, i) a parse finds the same pid, uid and socket, and the interface list is l if i was
+   already in it, else l followed by the &-separated fields of i *)
+Theorem C26_attach_roundtrip : forall (s : bytes) (u : ucred) (l : list bytes) (i : bytes),
+  ucrednet_get_with_interfaces s = Some (u, l) -> forallb not_semi i = true ->
+  ucrednet_get_with_interfaces (ucrednet_attach_interface s i) = Some (u, if mem i l then l else l ++ split_amp i).
+Proof. exact attach_full. Qed.
+Print Assumptions C26_attach_roundtrip.
+
+(* for a proper interface name (no ; no &) the list grows by exactly that name, once; a second attach is the identity *)
+Theorem C26_attach_roundtrip_plain : forall (s : bytes) (u : ucred) (l : list bytes) (i : bytes),
+  ucrednet_get_with_interfaces s = Some (u, l) -> forallb not_semi i = true -> forallb not_amp i = true ->
+  ucrednet_get_with_interfaces (ucrednet_attach_interface s i) = Some (u, if mem i l then l else l ++ [i]).
+Proof. exact attach_full_plain. Qed.
+Print Assumptions C26_attach_roundtrip_plain.
+
+Theorem C26_attach_idempotent : forall (s : bytes) (u : ucred) (l : list bytes) (i : bytes),
+  ucrednet_get_with_interfaces s = Some (u, l) -> forallb not_semi i = true -> forallb not_amp i = true ->
+  ucrednet_attach_interface (ucrednet_attach_interface s i) i = ucrednet_attach_interface s i.
+Proof. exact attach_idempotent. Qed.
+Print Assumptions C26_attach_idempotent.
+
+(* the guards are needed: WITHOUT them the round trip is false of the faithful model (each witness is replayed on the
+   real code by the driver on every run: cases cred / attachparse). None of these strings can occur in snapd: the socket
+   is the listener's own address and interface names match [a-z0-9-]+; so they document the guards, they are not findings.
+   (a) a socket path containing ;iface=y; reads back as ANOTHER socket plus a forged attachment, one with a bare ; as
+       no credentials; (b) an interface string with & reads back as two interfaces and attaching it again doubles them;
+   (c) an interface string with ; makes the address unparsable (credentials lost: every checker then denies). *)
+Theorem C26_roundtrip_unguarded_refuted :
+  (exists u, 0 < u_pid u < 2147483648 /\ u_uid u < 4294967295 /\
+             exists v l, ucrednet_get_with_interfaces (print_ucred u) = Some (v, l) /\ (v <> u /\ l <> [])) /\
+  (exists u, 0 < u_pid u < 2147483648 /\ u_uid u < 4294967295 /\ ucrednet_get_with_interfaces (print_ucred u) = None) /\
+  (exists u i, ucrednet_get_with_interfaces (print_ucred u) = Some (u, []) /\
+               ucrednet_get_with_interfaces (ucrednet_attach_interface (print_ucred u) i) <> Some (u, [i]) /\
+               ucrednet_attach_interface (ucrednet_attach_interface (print_ucred u) i) i <> ucrednet_attach_interface (print_ucred u) i) /\
+  (exists u i, ucrednet_get_with_interfaces (print_ucred u) = Some (u, []) /\
+               ucrednet_get_with_interfaces (ucrednet_attach_interface (print_ucred u) i) = None).
+Proof.
+  split; [|split; [|split]].
+  - exists (wit_u (bs "x;iface=y")). split; [vm_compute; auto|]. split; [vm_compute; reflexivity|].
+    exists (wit_u (bs "x")), [bs "y"]. split; [exact roundtrip_semicolon_socket_refuted|]. split; discriminate.
+  - exists (wit_u (bs "a;b")). split; [vm_compute; auto|]. split; [vm_compute; reflexivity|exact roundtrip_semicolon_socket_lost].
+  - exists (wit_u snap_socket), (bs "a&b"). split; [vm_compute; reflexivity|]. split; [vm_compute; discriminate|vm_compute; discriminate].
+  - exists (wit_u snap_socket), (bs "a;iface=b"). split; [vm_compute; reflexivity|exact attach_semicolon_refuted].
+Qed.
+Print Assumptions C26_roundtrip_unguarded_refuted.
 
 (* on every endpoint of the table, a served handler finds the peer's own credentials in r.RemoteAddr, whatever
    interfaces the checker attached on the way *)
@@ -184,3 +272,19 @@ Example ex_slot_side_denied :
          (ex_inst_ctx "some-snap" [mkConn (bs "other-snap") (bs "some-snap") (bs "snap-refresh-observe") false false]))
   = Denied Forbidden.
 Proof. vm_compute. reflexivity. Qed.
+
+(* the notices filter: with refresh-observe attached, change-update is viewable, the prompting type and warning are not,
+   and the empty request is not; on the main socket everything is *)
+Example ex_viewable :
+  notice_types_viewable [bs "change-update"; bs "refresh-inhibit"] (bs "pid=42;uid=1000;socket=/run/snapd-snap.socket;iface=snap-refresh-observe;") = true /\
+  notice_types_viewable [bs "change-update"; bs "interfaces-requests-prompt"] (bs "pid=42;uid=1000;socket=/run/snapd-snap.socket;iface=snap-refresh-observe;") = false /\
+  notice_types_viewable [bs "warning"] (bs "pid=42;uid=1000;socket=/run/snapd-snap.socket;iface=snap-refresh-observe&snap-interfaces-requests-control;") = false /\
+  notice_types_viewable [] (bs "pid=42;uid=1000;socket=/run/snapd-snap.socket;iface=snap-refresh-observe;") = false /\
+  notice_types_viewable [bs "warning"] (bs "pid=42;uid=1000;socket=/run/snapd.socket;") = true.
+Proof. vm_compute. auto. Qed.
+
+(* both directions of the decision theorem are inhabited: root on the main socket satisfies the level of POST /v2/users *)
+Example ex_allowed_root : allowed ARoot (ex_ctx "pid=100;uid=0;socket=/run/snapd.socket;" false).
+Proof.
+  exists (mkUcred 100 0 snapd_socket). split; [apply get_some_peer; vm_compute; reflexivity|cbn; auto].
+Qed.
